@@ -35,7 +35,7 @@ func cases(tier string) int {
 	if tier == "thorough" {
 		return 200000
 	}
-	return 2400
+	return 6400
 }
 
 func run(r *mon.Report, tier string, idx int, rng *rand.Rand) {
